@@ -536,6 +536,105 @@ theorem composite_version_changes (hH : Function.Injective H)
     (by rw [e1, e2, hv])
   exact hne this.2
 
+/-! ## associativity (stretch)
+
+Full statement (NOT proved here; checked differentially on error-free triples, clause `assoc`):
+
+    theorem merge_assoc (ha : Dict.wf a) (hb : Dict.wf b) (hc : Dict.wf c)
+        (h1 : mergeDict ml ms a b = .ok ab) (h2 : mergeDict ml ms ab c = .ok l)
+        (h3 : mergeDict ml ms b c = .ok bc) (h4 : mergeDict ml ms a bc = .ok r) : l ≈ r
+
+(`≈` = equal up to the order inside sets). Missing for the full proof: symmetry and transitivity
+of `pyEq` on nested values (needed for the list-append and set-union branches), preservation of
+`Dict.wf` by the merge, and extensionality of association lists with distinct keys.
+-/
+
+theorem mergeVal_flat {v ov : Val} (hv : v.kind ≠ .mapping) (ho : ov.kind ≠ .mapping) :
+    mergeVal false false v ov = .ok ov := by
+  rw [mergeVal_leaf (fun h => hv h.1)]
+  simp only [mergeLeaf, Val.isMapping, Bool.false_and, Bool.false_eq_true, if_false]
+  cases hk : v.kind <;> cases hk' : ov.kind <;> simp_all
+
+/-- **Associativity, partial**: with both flags off and trees whose values are not mappings
+(one level), both bracketings of a triple give the same value for every key. -/
+theorem merge_assoc_partial {a b c ab bc l r : Dict}
+    (fa : ∀ kv ∈ a, kv.2.kind ≠ .mapping) (fb : ∀ kv ∈ b, kv.2.kind ≠ .mapping)
+    (fc : ∀ kv ∈ c, kv.2.kind ≠ .mapping)
+    (h1 : mergeDict false false a b = .ok ab) (h2 : mergeDict false false ab c = .ok l)
+    (h3 : mergeDict false false b c = .ok bc) (h4 : mergeDict false false a bc = .ok r) :
+    ∀ k, lookup k l = lookup k r := by
+  intro k
+  have s1 := merge_value_spec h1 k
+  have s2 := merge_value_spec h2 k
+  have s3 := merge_value_spec h3 k
+  have s4 := merge_value_spec h4 k
+  have ka : ∀ v, lookup k a = some v → v.kind ≠ .mapping := fun v h => by
+    obtain ⟨k', hk'⟩ := lookup_mem h; exact fa _ hk'
+  have kb : ∀ v, lookup k b = some v → v.kind ≠ .mapping := fun v h => by
+    obtain ⟨k', hk'⟩ := lookup_mem h; exact fb _ hk'
+  have kc : ∀ v, lookup k c = some v → v.kind ≠ .mapping := fun v h => by
+    obtain ⟨k', hk'⟩ := lookup_mem h; exact fc _ hk'
+  cases ha : lookup k a with
+  | none =>
+    cases hb : lookup k b with
+    | none =>
+      simp only [ha, hb] at s1 s3
+      cases hc : lookup k c <;> simp only [hc] at s3 <;> simp only [s1, hc] at s2 <;>
+        simp only [ha, s3] at s4 <;> rw [s2, s4]
+    | some vb =>
+      simp only [ha, hb] at s1 s3
+      cases hc : lookup k c with
+      | none => simp only [hc] at s3; simp only [s1, hc] at s2; simp only [ha, s3] at s4; rw [s2, s4]
+      | some vc =>
+        simp only [hc] at s3
+        obtain ⟨x, hx, hbc⟩ := s3
+        rw [mergeVal_flat (kb vb hb) (kc vc hc)] at hx
+        simp only [s1, hc] at s2
+        obtain ⟨y, hy, hl⟩ := s2
+        rw [mergeVal_flat (kb vb hb) (kc vc hc)] at hy
+        simp only [ha, hbc] at s4
+        rw [hl, s4]; cases hx; cases hy; rfl
+  | some va =>
+    cases hb : lookup k b with
+    | none =>
+      simp only [ha, hb] at s1 s3
+      cases hc : lookup k c with
+      | none => simp only [hc] at s3; simp only [s1, hc] at s2; simp only [ha, s3] at s4; rw [s2, s4]
+      | some vc =>
+        simp only [hc] at s3
+        simp only [s1, hc] at s2
+        obtain ⟨y, hy, hl⟩ := s2
+        simp only [ha, s3] at s4
+        obtain ⟨z, hz, hr⟩ := s4
+        rw [mergeVal_flat (ka va ha) (kc vc hc)] at hy hz
+        cases hy; cases hz; rw [hl, hr]
+    | some vb =>
+      simp only [ha, hb] at s1 s3
+      obtain ⟨w, hw, hab⟩ := s1
+      rw [mergeVal_flat (ka va ha) (kb vb hb)] at hw
+      cases hw
+      cases hc : lookup k c with
+      | none =>
+        simp only [hc] at s3
+        simp only [hab, hc] at s2
+        simp only [ha, s3] at s4
+        obtain ⟨z, hz, hr⟩ := s4
+        rw [mergeVal_flat (ka va ha) (kb vb hb)] at hz
+        cases hz; rw [s2, hr]
+      | some vc =>
+        simp only [hc] at s3
+        obtain ⟨x, hx, hbc⟩ := s3
+        rw [mergeVal_flat (kb vb hb) (kc vc hc)] at hx
+        cases hx
+        simp only [hab, hc] at s2
+        obtain ⟨y, hy, hl⟩ := s2
+        rw [mergeVal_flat (kb vb hb) (kc vc hc)] at hy
+        cases hy
+        simp only [ha, hbc] at s4
+        obtain ⟨z, hz, hr⟩ := s4
+        rw [mergeVal_flat (ka va ha) (kc vc hc)] at hz
+        cases hz; rw [hl, hr]
+
 /-! ## examples: the hypotheses are satisfiable, known-bad behaviour is rejected -/
 
 /-- an injective "hash" exists, so the version theorems are not vacuous -/
